@@ -45,15 +45,15 @@ def c06_runs(tier):
         # one worker, one outer task (outer size N): every inner kind x the 12 variants
         for kind in KINDS:
             add(1, kind, ANY, 0, 1, budget=15)
+        # two workers with N and N+1 outer tasks on the heavy (steal-ring) outer set, T0 waiting and T0 idle (time-boxed)
+        for prog in ('CC', 'CF', 'CCC'):
+            add(2, prog, 'C', 1, 1, t0=ANY, budget=12)
+        add(1, 'CF', 'C', 1, 1, t0='i', mode='tsan', budget=15)
+        add(1, 'TL', 'T', 1, 1, mode='asan', budget=15)
         # one worker, two outer tasks (outer size N+1): every pair containing a steal-ring user (C or F)
         for prog in _multisets(KINDS, 2):
             if 'C' in prog or 'F' in prog:
                 add(1, prog, 'C', 1, 1, t0=ANY, budget=8)
-        add(1, 'CF', 'C', 1, 1, t0='i', mode='tsan', budget=15)
-        add(1, 'TL', 'T', 1, 1, mode='asan', budget=15)
-        # two workers with N and N+1 outer tasks on the heavy (steal-ring) outer set, T0 waiting and T0 idle (time-boxed)
-        for prog in ('CC', 'CF', 'CCC'):
-            add(2, prog, 'C', 1, 1, t0=ANY, budget=12)
     else:
         for prog in _multisets(KINDS, 1):
             add(1, prog, ANY, 0, 1, budget=20)
